@@ -75,7 +75,7 @@ type Run struct {
 func NewRun(prop, tier string, seed int64, driver string) *Run {
 	return &Run{Prop: prop, Tier: tier, Seed: seed, Rng: rand.New(rand.NewSource(seed)), Driver: driver,
 		Res:  &Result{Property: prop, Tier: tier, Seed: seed, Distribution: map[string]int{}, FailureCounts: map[string]int{}},
-		keys: map[string]bool{}, maxFails: 40, start: time.Now()}
+		keys: map[string]bool{}, maxFails: maxFailsEnv(), start: time.Now()}
 }
 
 func (r *Run) Thorough() bool { return r.Tier == "thorough" }
@@ -110,7 +110,7 @@ func (r *Run) Add(c *Case) {
 func (r *Run) fail(f Failure) {
 	key := f.Kind + ":" + f.Class
 	r.Res.FailureCounts[key]++
-	if r.Res.FailureCounts[key] <= 3 && len(r.Res.Failures) < r.maxFails {
+	if (r.Res.FailureCounts[key] <= 3 || os.Getenv("VERIF_ALLFAILS") != "") && len(r.Res.Failures) < r.maxFails {
 		r.Res.Failures = append(r.Res.Failures, f)
 	}
 }
@@ -200,3 +200,10 @@ func (r *Run) Finish(out string) {
 type propFn func(r *Run, replay *Case)
 
 var props = map[string]propFn{}
+
+func maxFailsEnv() int {
+	if os.Getenv("VERIF_ALLFAILS") != "" {
+		return 2000
+	}
+	return 40
+}
